@@ -2,7 +2,8 @@
    (signal-valued ports, connections given by their widths), and which entries of the default pass
    list (elab.py:Elaborator.default, regenerated as Hdl21Gen.DefaultPasses) actually visit modules. *)
 Require Import Hdl21.Base.PyInt Hdl21.Base.Design.
-Require Import Hdl21Gen.DefaultPasses.
+(* The regenerated list itself (Hdl21Gen.DefaultPasses) is imported only by Props/C02.v, so that the evaluators of
+   Corr/C02.v do not depend on a table of the tree under test. *)
 
 (* conns.pop(portname) *)
 Fixpoint pop {A} (k : name) (l : list (name * A)) : option A * list (name * A) :=
